@@ -8,10 +8,10 @@ CONSTANTS
   ModeSet = {"sock"}
   UseVcSet = {FALSE, TRUE}
   TcpOnlySet <- MCT_TcpOnly
-  TmoSet = {40, 500}
+  TmoSet = {40}
   Est = 30
-  Outs = {"Data", "NX", "SF", "REF", "FE", "TC", "Err"}
-  TcpOuts = {"Data", "NX", "SF", "TC", "Err"}
+  Outs = {"Data", "SF", "FE", "TC"}
+  TcpOuts = {"Data", "TC", "Err"}
   Lats = {1, 50}
   FreshEvery = FALSE
   Dev = {"D_first_failure_final", "D_ndots_ignored"}
